@@ -74,7 +74,7 @@ def doMesh (text : Str) : String :=
     let d1 := dumpNode sh n
     let w1 := printMeshFile sh dim n
     let head := s!"OK {d1} W {hex w1}"
-    match reparse sh dim w1 with
+    match reparse sh dim n.wdim w1 with
     | .err e => head ++ " " ++ showErr "RTERR" e
     | .ok _ _ n2 =>
       let d2 := dumpNode sh n2
